@@ -284,3 +284,46 @@ Definition read_obj (s : str) : option (list kv * str) :=
     end
   | _ => None
   end.
+
+(* ---------- the mediaType a manifest document declares (what a registry or a store dispatches on) ---------- *)
+Fixpoint strip_prefix (p s : str) : option str :=
+  match p with
+  | [] => Some s
+  | c :: p' =>
+    match s with
+    | d :: s' => if c =? d then strip_prefix p' s' else None
+    | [] => None
+    end
+  end.
+
+(* "name":<string> at the head of s *)
+Definition read_field (name : string) (s : str) : option (str * str) :=
+  match strip_prefix (json_string (b name) ++ [58]) s with
+  | Some r => read_string r
+  | None => None
+  end.
+
+(* the first field, or the one after "schemaVersion":2 *)
+Definition doc_media_type (s : str) : option str :=
+  match strip_prefix [123] s with
+  | Some r =>
+    let r' := match strip_prefix (field "schemaVersion" [50] ++ comma) r with Some x => x | None => r end in
+    match read_field "mediaType" r' with Some (mt, _) => Some mt | None => None end
+  | None => None
+  end.
+
+(* ... and, right after it, the artifactType when the document has one *)
+Definition doc_artifact_type (s : str) : option str :=
+  match strip_prefix [123] s with
+  | Some r =>
+    let r' := match strip_prefix (field "schemaVersion" [50] ++ comma) r with Some x => x | None => r end in
+    match read_field "mediaType" r' with
+    | Some (_, r2) =>
+      match strip_prefix comma r2 with
+      | Some r3 => match read_field "artifactType" r3 with Some (a, _) => Some a | None => None end
+      | None => None
+      end
+    | None => None
+    end
+  | None => None
+  end.
